@@ -25,4 +25,11 @@ PROPS = {
     },
 }
 
+PROPS["C18"] = {
+    "engine": "codec",
+    "properties_file": "Properties/C18.v",
+    "model_files": ["Model/WireTypes.v", "Model/Codec.v", "Model/Interp.v", "Model/Cases18.v"],
+    "technique": "Coq proof by induction over arbitrary layout descriptors; model tied by differential run on reflect.StructOf layouts",
+    "level_text": "todo", "level_note": "todo", "rule": "todo",
+}
 NOT_YET = {}
